@@ -370,10 +370,31 @@ Fixpoint del_client (k : N) (cl : list (N * bytes)) : list (N * bytes) :=
   | (s, d) :: r => if s =? k then r else (s, d) :: del_client k r
   end.
 
+(* cmds/recv.c recv_trace_dir_name: the directory name is chosen by the client; a name that a connected client is
+   writing to - or whose rotation (create_directory renames NAME to NAME.old after removing NAME.old) would remove
+   a connected client's directory - is replaced by NAME.1, NAME.2, ... (fix: commit; [fx = false] is the code as
+   found, which used the name as given). *)
+Definition in_use (cand : bytes) (cl : list (N * bytes)) : bool :=
+  existsb (fun e => list_eqb (snd e) cand || list_eqb (snd e) (old_of cand)) cl.
+Definition cand_name (d : bytes) (i : N) : bytes := if i =? 0 then d else d ++ str "." ++ dec i.
+(* the C loop has no bound; every client blocks at most two candidates, so 2n+2 tries are enough - the model
+   gives up (None) beyond that, which no run can reach *)
+Fixpoint pick_name (fuel : nat) (d : bytes) (i : N) (cl : list (N * bytes)) : option bytes :=
+  match fuel with
+  | O => None
+  | S f => if in_use (cand_name d i) cl then pick_name f d (i + 1) cl else Some (cand_name d i)
+  end.
+Definition mkdir_name (fx : bool) (d : bytes) (cl : list (N * bytes)) : option bytes :=
+  if fx then pick_name (2 * length cl + 2) d 0 cl else Some d.
+
 (* effect of one handled message of socket k; None = pr_err (the server exits) *)
-Definition apply (k : N) (a : action) (s : server) : option server :=
+Definition apply (fx : bool) (k : N) (a : action) (s : server) : option server :=
   match a with
-  | AMkdir d => Some {| clients := (k, d) :: clients s; fs := create_directory d (fs s) |}
+  | AMkdir d =>
+      match mkdir_name fx d (clients s) with
+      | None => None
+      | Some c => Some {| clients := (k, c) :: clients s; fs := create_directory c (fs s) |}
+      end
   | AAppend f data =>
       match find_client k (clients s) with
       | None => None                                   (* "no client on this socket" *)
@@ -400,27 +421,27 @@ Definition action_of (m : msg) : action :=
   end.
 
 (* abstract run: events (socket, message) in the order the server handles them *)
-Fixpoint run (evs : list (N * msg)) (s : server) : option server :=
+Fixpoint run (fx : bool) (evs : list (N * msg)) (s : server) : option server :=
   match evs with
   | [] => Some s
-  | (k, m) :: r => match apply k (action_of m) s with
+  | (k, m) :: r => match apply fx k (action_of m) s with
                    | None => None
-                   | Some s' => run r s'
+                   | Some s' => run fx r s'
                    end
   end.
 
 (* concrete run: [order] = the socket epoll reports at each step; every socket has its transport *)
 Definition tmap := N -> transport.
 Definition tm_set (k : N) (t : transport) (tm : tmap) : tmap := fun x => if x =? k then t else tm x.
-Fixpoint serve (order : list N) (tm : tmap) (s : server) : option (server * tmap) :=
+Fixpoint serve (fx : bool) (order : list N) (tm : tmap) (s : server) : option (server * tmap) :=
   match order with
   | [] => Some (s, tm)
   | k :: r =>
       match handle_client_sock (tm k) with
       | Died => None
-      | Handled a t' => match apply k a s with
+      | Handled a t' => match apply fx k a s with
                         | None => None
-                        | Some s' => serve r (tm_set k t' tm) s'
+                        | Some s' => serve fx r (tm_set k t' tm) s'
                         end
       end
   end.
@@ -432,22 +453,22 @@ Fixpoint serve (order : list N) (tm : tmap) (s : server) : option (server * tmap
      WNew k t  accept() returned k (the lowest free descriptor - possibly the number of a socket closed
                before) for a new connection whose stream is t *)
 Inductive wake := WIn (k : N) | WHup (k : N) | WNew (k : N) (t : transport).
-Fixpoint serve_w (ws : list wake) (tm : tmap) (s : server) : option (server * tmap) :=
+Fixpoint serve_w (fx : bool) (ws : list wake) (tm : tmap) (s : server) : option (server * tmap) :=
   match ws with
   | [] => Some (s, tm)
   | WIn k :: r =>
       match handle_client_sock (tm k) with
       | Died => None
-      | Handled a t' => match apply k a s with
+      | Handled a t' => match apply fx k a s with
                         | None => None
-                        | Some s' => serve_w r (tm_set k t' tm) s'
+                        | Some s' => serve_w fx r (tm_set k t' tm) s'
                         end
       end
-  | WHup k :: r => match apply k AEnd s with
+  | WHup k :: r => match apply fx k AEnd s with
                    | None => None
-                   | Some s' => serve_w r (tm_set k [] tm) s'
+                   | Some s' => serve_w fx r (tm_set k [] tm) s'
                    end
-  | WNew k t :: r => serve_w r (tm_set k t tm) s
+  | WNew k t :: r => serve_w fx r (tm_set k t tm) s
   end.
 
 (* ------------------------------------------------------------------ local recording *)
@@ -486,6 +507,23 @@ Definition meta_msgs (L : dirent) : list msg :=
   map msg_of_file (sel is_sym_name L) ++
   map msg_of_file (sel is_dbg_name L) ++
   map msg_of_info (sel (list_eqb n_info) L).
+(* the same with a file sent in several pieces (the receiver appends every piece to the file of that name):
+   [chunk c] = the payloads of the messages for a file with content c.  The code sends one message per file. *)
+Definition msgs_of_file (chunk : bytes -> list bytes) (e : bytes * bytes) : list msg := map (MMeta (fst e)) (chunk (snd e)).
+Definition meta_msgs_c (chunk : bytes -> list bytes) (L : dirent) : list msg :=
+  flat_map (msgs_of_file chunk) (sel (list_eqb n_task) L) ++
+  flat_map (msgs_of_file chunk) (sel is_map_name L) ++
+  flat_map (msgs_of_file chunk) (sel is_sym_name L) ++
+  flat_map (msgs_of_file chunk) (sel is_dbg_name L) ++
+  map msg_of_info (sel (list_eqb n_info) L).
+Definition whole (c : bytes) : list bytes := [c].          (* cmds/recv.c send_trace_metadata: iov[3] = the whole file *)
+(* pieces of at most n bytes, at least one piece (an example of another chunking) *)
+Fixpoint pieces (fuel n : nat) (c : bytes) : list bytes :=
+  match fuel with
+  | O => [c]
+  | S f => if (length c <=? n)%nat then [c] else firstn n c :: pieces f n (skipn n c)
+  end.
+
 (* the names the sequence above covers *)
 Definition sent_name (n : bytes) : bool :=
   list_eqb n_task n || is_map_name n || is_sym_name n || is_dbg_name n || list_eqb n_info n.
@@ -555,6 +593,8 @@ Record client_case := {
   cc_files : option dirent;        (* ... and the rest is what the real send_task_file/send_map_files/send_sym_files/
                                       send_dbg_files/send_info_file made of the local metadata files (Some L) *)
   cc_abort : bool;                 (* true: no MEnd; the connection is reset once the server has read all *)
+  cc_split : nat;                  (* the server handles the first cc_split messages before the later clients of the
+                                      case connect and the rest after them (>= all messages: strictly one after the other) *)
   cc_wsched : list Z;              (* short-write schedule given to the interposed write/writev *)
   cc_rsched : list nat;            (* chunk sizes given to the interposed read of the server *)
   cc_wire : bytes;                 (* IMPL: bytes the sender put on the socket *)
@@ -568,23 +608,26 @@ Definition cc_msgs (c : client_case) : list msg :=
 Definition agree_send (c : client_case) : bool :=
   let '(st, fr) := send_all (wsched_of (cc_wsched c)) (cc_msgs c) in
   match st with WDone => list_eqb (concat fr) (cc_wire c) | _ => false end.
-(* model of the receiver on the captured bytes (clients served one after the other) *)
-Fixpoint serve_seq (cs : list client_case) (s : server) : option server :=
-  match cs with
-  | [] => Some s
-  | c :: r =>
-      (* accept gives cc_sock (the same number again when an earlier connection was reset), one wake-up
-         per message, then a hang-up for an aborted connection *)
-      let ws := WNew (cc_sock c) (segment (cc_rsched c) (cc_wire c)) ::
-                map WIn (repeat (cc_sock c) (length (cc_msgs c))) ++
-                (if cc_abort c then [WHup (cc_sock c)] else []) in
-      match serve_w ws (fun _ => []) s with
-      | None => None
-      | Some (s', _) => serve_seq r s'
-      end
+(* model of the receiver on the captured bytes.  Order of the wake-ups: every client in turn is accepted
+   (on cc_sock - the same number again when an earlier connection was reset) and has its first cc_split messages
+   handled (all of them, then the hang-up of an aborted connection, when cc_split covers everything); then, in
+   turn again, the remaining messages.  The harness enforces exactly this partial order. *)
+Definition wakes1 (c : client_case) : list wake :=
+  let n := length (cc_msgs c) in
+  WNew (cc_sock c) (segment (cc_rsched c) (cc_wire c)) ::
+  map WIn (repeat (cc_sock c) (Nat.min (cc_split c) n)) ++
+  (if (n <=? cc_split c)%nat then (if cc_abort c then [WHup (cc_sock c)] else []) else []).
+Definition wakes2 (c : client_case) : list wake :=
+  let n := length (cc_msgs c) in
+  if (n <=? cc_split c)%nat then []
+  else map WIn (repeat (cc_sock c) (n - cc_split c)) ++ (if cc_abort c then [WHup (cc_sock c)] else []).
+Definition serve_case (cs : list client_case) (s : server) : option server :=
+  match serve_w true (flat_map wakes1 cs ++ flat_map wakes2 cs) (fun _ => []) s with
+  | None => None
+  | Some (s', _) => Some s'
   end.
 Definition agree_recv (cs : list client_case) : bool :=
-  match serve_seq cs {| clients := []; fs := fs_empty |} with
+  match serve_case cs {| clients := []; fs := fs_empty |} with
   | None => false
   | Some s => forallb (fun c => odir_eqb (fs s (cc_where c)) (cc_recv c)) cs
   end.
@@ -605,16 +648,16 @@ Definition ok_case (cs : list client_case) : bool :=
   forallb (fun c => same_dir_opt (cc_local c) (cc_recv c)) cs.
 
 (* one socket served until SEND_END, death, or end of stream (then read() = 0: death) *)
-Fixpoint serve_stream (fuel : nat) (k : N) (t : transport) (s : server) : option server :=
+Fixpoint serve_stream (fx : bool) (fuel : nat) (k : N) (t : transport) (s : server) : option server :=
   match fuel with
   | O => None
   | S f =>
       match handle_client_sock t with
       | Died => None
       | Handled a t' =>
-          match apply k a s with
+          match apply fx k a s with
           | None => None
-          | Some s' => match a with AEnd => Some s' | _ => serve_stream f k t' s' end
+          | Some s' => match a with AEnd => Some s' | _ => serve_stream fx f k t' s' end
           end
       end
   end.
@@ -622,7 +665,7 @@ Fixpoint serve_stream (fuel : nat) (k : N) (t : transport) (s : server) : option
    directory [d] afterwards?  compared with the implementation's (died, directory) *)
 Definition agree_raw (c : bytes * list nat * bytes * (bool * option dirent)) : bool :=
   let '(wire, rsched, d, (died, got)) := c in
-  match serve_stream (S (length wire)) 1 (segment rsched wire) {| clients := []; fs := fs_empty |} with
+  match serve_stream true (S (length wire)) 1 (segment rsched wire) {| clients := []; fs := fs_empty |} with
   | None => died
   | Some s => negb died && odir_eqb (fs s d) got
   end.
